@@ -3,7 +3,8 @@ DevInThread / DevOutThread / ConnIoThread run loops) under forced schedules.
 
 stdin : {"cases": [case, ...], "labels": bool}
   case = {"cfg": {"conn": bool, "virt": bool, "tmo": int},
-          "script": [["cmd", fc, [[frame, ...], ...]] | ["lock"] | ["unlock"] | ["sync", mode] | ["wait", t|null]],
+          "script": [["cmd", fc, [[frame, ...], ...]] | ["send", fc|null, [[frame, ...], ...]]
+                     | ["lock"] | ["unlock"] | ["sync", mode] | ["wait", t|null]],
           "spont": [[frame, ...], ...], "locked0": bool,
           "prefix": [action, ...], "tail": bool, "cap": int}
   frame  = [cls, uid, pkt] | null (undecodable);  action = 0 A, 1 W, 2 R, 3 C, 4 tick, 5 emit
@@ -221,7 +222,7 @@ def namer(t):
 def run_case(case, want_labels=False):
     cfg = case["cfg"]
     script = case["script"]
-    reactions = [op[2] for op in script if op[0] == "cmd"]
+    reactions = [op[2] for op in script if op[0] in ("cmd", "send")]
     tmo = int(cfg["tmo"])
     s = S.new_sched(watchdog=15.0)
     s.namer = namer
@@ -240,6 +241,7 @@ def run_case(case, want_labels=False):
         D.DevOutThread(dev).start()
     spont = list(case.get("spont", []))
     returned, retrieved, spans, returned_at = [], [], [], []
+    sent, nsent = [], [0]
     sched = []
     if conn is not None:
         conn.now = lambda: len(sched)
@@ -264,6 +266,16 @@ def run_case(case, want_labels=False):
                     raise
                 except Exception as e:      # noqa
                     returned.append(["exc", type(e).__name__])
+            elif op[0] == "send":
+                # send_message(msg, keep): no wait; op[1] = filter class or None (no filter given)
+                try:
+                    dev.send_message(HUB.discovery.create_domain_query((nsent[0] + 1) << 24),
+                                     keep=None if op[1] is None else keep_for(op[1]))
+                    sent.append(["sent"])
+                except S.Kill:
+                    raise
+                except Exception as e:      # noqa
+                    sent.append(["exc", type(e).__name__])
             elif op[0] == "lock":
                 conn.lock()
             elif op[0] == "unlock":
@@ -404,7 +416,7 @@ def run_case(case, want_labels=False):
     info = {"crashed": {n: type(t.exc).__name__ for n, t in s.threads.items() if t.exc is not None},
             "pending": {n: t.label for n, t in s.threads.items() if not t.done},
             "in_q": len(dev._Device__in_messages.items()),
-            "emitted": dev.emitted, "spans": spans, "returned_at": returned_at,
+            "emitted": dev.emitted, "spans": spans, "returned_at": returned_at, "sent": sent,
             "delivered_at": conn.delivered_at if conn else [], "wire_left": len(dev.wire), "spont_left": len(spont),
             "labelset": sorted({canon_label(t, l) for (t, l, k) in s.trace if k == "run"})}
     res = {"sched": sched, "obs": obs, "capped": capped, "info": info}
